@@ -104,3 +104,86 @@ Theorem C02_mat_apply_eye :
          ModOk modulo n -> UmatP modulo n m S -> mat_apply modulo n m (eye n) S = S.
 Proof. exact @mat_apply_eye. Qed.
 Print Assumptions C02_mat_apply_eye.
+
+From V Require Import Base Tensor Graph GraphProofs GraphImpl Hash Perm Codec CodecProofs Def Bfs BfsRun BfsProofs NumpyBfs NumpyBfsProofs InstPerm InstBfs InstCodec InstCodecBfs InstCodecNumpy.
+
+(* AUDIT: every side condition of the codec theorems follows from wf_perm_desc d and Ustates d s (no gap between C02 and the model the search theorems use) *)
+Theorem C02_codec_side_conditions :
+  forall (d : gdesc) (w : nat) (p : list nat) (s : state),
+         wf_perm_desc d ->
+         g_width d = Some w -> In p (desc_perms d) -> Ustates d s -> codec_pre w (desc_n d) p s.
+Proof. exact @codec_side_conditions. Qed.
+Print Assumptions C02_codec_side_conditions.
+
+(* END TO END: encode, run the generated 64-bit routine, decode = the abstract action acts (impl_of d) used by all search models *)
+Theorem C02_encoded_action_is_abstract :
+  forall (d : gdesc) (w i : nat) (s : state),
+         wf_perm_desc d ->
+         g_width d = Some w ->
+         (i < length (desc_perms d))%nat ->
+         Ustates d s ->
+         let n := desc_n d in
+         let p := nth i (desc_perms d) [] in
+         decode w n (eval_prog (encoded_length w n) (emit w n p) (encode w n s)) =
+         nth i (acts (impl_of d)) (fun x : state => x) s.
+Proof. exact @encoded_action_is_abstract. Qed.
+Print Assumptions C02_encoded_action_is_abstract.
+
+(* the routine maps the code of s to the code of the image (codes are canonical: unused bits zero) *)
+Theorem C02_encoded_image_is_code :
+  forall (d : gdesc) (w : nat) (p : list nat) (s : state),
+         wf_perm_desc d ->
+         g_width d = Some w ->
+         In p (desc_perms d) ->
+         Ustates d s ->
+         let n := desc_n d in
+         eval_prog (encoded_length w n) (emit w n p) (encode w n s) = encode w n (apply_perm 0 p s).
+Proof. exact @encoded_image_is_code. Qed.
+Print Assumptions C02_encoded_image_is_code.
+
+(* hashing the encoded neighbour = hashf of the abstract neighbour *)
+Theorem C02_encoded_hash_is_hashf :
+  forall (steps : list mix_step) (mult : Z) (d : gdesc) (w : nat) (p : list nat) (s : state),
+         wf_perm_desc d ->
+         g_width d = Some w ->
+         In p (desc_perms d) ->
+         Ustates d s ->
+         let n := desc_n d in
+         make_hash steps mult (g_hasher d)
+           (eval_prog (encoded_length w n) (emit w n p) (encode w n s)) =
+         hashf (mk_impl steps mult d) (apply_perm 0 p s).
+Proof. exact @encoded_hash_is_hashf. Qed.
+Print Assumptions C02_encoded_hash_is_hashf.
+
+(* get_neighbors on code rows, decoded = get_neighbors of the model (generator-major order) *)
+Theorem C02_encoded_neighbors :
+  forall (d : gdesc) (sts : list state),
+         wf_perm_desc d ->
+         (forall s : state, In s sts -> Ustates d s) ->
+         map (dec_row d) (get_neighbors_encoded d (map (encoded_row d) sts)) =
+         get_neighbors (impl_of d) sts.
+Proof. exact @encoded_neighbors. Qed.
+Print Assumptions C02_encoded_neighbors.
+
+(* apply_path through the routines = composing the abstract actions in order *)
+Theorem C02_encoded_apply_path_decoded :
+  forall (d : gdesc) (s : state) (path : list nat),
+         wf_perm_desc d ->
+         Ustates d s -> apply_path_encoded d s path = apply_path (acts (impl_of d)) s path.
+Proof. exact @encoded_apply_path_decoded. Qed.
+Print Assumptions C02_encoded_apply_path_decoded.
+
+(* one-word codes: the 1-D routine (NumPy and bit-mask engines) is the abstract action too *)
+Theorem C02_oneword_routine_is_abstract :
+  forall (d : gdesc) (w i : nat) (s : state),
+         wf_perm_desc d ->
+         g_width d = Some w ->
+         single_word d ->
+         (i < length (desc_perms d))%nat ->
+         Ustates d s ->
+         let n := desc_n d in
+         let p := nth i (desc_perms d) [] in
+         decode w n [eval_prog1d (emit w n p) (code_word w n s)] =
+         nth i (acts (impl_of d)) (fun x : state => x) s.
+Proof. exact @oneword_routine_is_abstract. Qed.
+Print Assumptions C02_oneword_routine_is_abstract.
